@@ -4,6 +4,8 @@
 
 use proptest::prelude::*;
 use proptest::strategy::BoxedStrategy;
+use redis_sim::redis::{RespValue, RespValueZeroCopy};
+use serde::{Deserialize, Serialize};
 use vcore::resp::Argv;
 
 #[derive(Clone, Copy, Debug)]
@@ -600,4 +602,324 @@ pub fn top_level_names() -> Vec<&'static str> {
     v.sort();
     v.dedup();
     v
+}
+
+// =======================================================================================
+// typed frames: command arrays whose elements are not all bulk strings
+// =======================================================================================
+//
+// A RESP command frame is an array; clients send bulk strings, but the frame decoders accept
+// any element type in it (`:5\r\n`, `+OK\r\n`, `-ERR x\r\n`, `$-1\r\n`, `*-1\r\n`, nested
+// arrays), and the frame itself may be a nil array or not an array at all. Both command
+// parsers are handed such frames; the property quantifies over all frames.
+
+/// One element of a command frame (everything the two frame decoders can produce).
+#[derive(Clone, Debug, PartialEq, Eq, Hash, Serialize, Deserialize)]
+pub enum El {
+    Bulk(Vec<u8>),
+    /// `:n\r\n`
+    Int(i64),
+    /// `+text\r\n` (valid UTF-8, no CR / LF: what can come off the wire)
+    Simple(String),
+    /// `-text\r\n`
+    Error(String),
+    /// `$-1\r\n`
+    NilBulk,
+    /// `*-1\r\n`
+    NilArray,
+    /// `*n\r\n` followed by n bulk strings (n may be 0)
+    Array(Vec<Vec<u8>>),
+}
+
+/// Shape of the frame itself.
+#[derive(Clone, Copy, Debug, Default, PartialEq, Eq, Hash, Serialize, Deserialize)]
+pub enum Top {
+    /// `*N` + the elements (what every client sends)
+    #[default]
+    Array,
+    /// `*-1\r\n`
+    NilArray,
+    /// not an array: the first element alone is the frame
+    Bare,
+}
+
+impl Top {
+    pub fn is_array(&self) -> bool {
+        *self == Top::Array
+    }
+}
+
+impl El {
+    pub fn kind(&self) -> &'static str {
+        match self {
+            El::Bulk(_) => "bulk",
+            El::Int(_) => "int",
+            El::Simple(_) => "simple",
+            El::Error(_) => "error",
+            El::NilBulk => "nil_bulk",
+            El::NilArray => "nil_array",
+            El::Array(_) => "array",
+        }
+    }
+    pub fn show(&self) -> String {
+        match self {
+            El::Bulk(b) => {
+                let s = vcore::show(b);
+                if s.is_empty() || s.contains(' ') {
+                    format!("\"{}\"", s)
+                } else {
+                    s
+                }
+            }
+            El::Int(n) => format!("<:{}>", n),
+            El::Simple(t) => format!("<+{}>", t),
+            El::Error(t) => format!("<-{}>", t),
+            El::NilBulk => "<$-1>".to_string(),
+            El::NilArray => "<*-1>".to_string(),
+            El::Array(v) => format!("<*{}[{}]>", v.len(), vcore::resp::show_argv(v)),
+        }
+    }
+    pub fn to_sim(&self) -> RespValue {
+        match self {
+            El::Bulk(b) => RespValue::BulkString(Some(b.clone())),
+            El::Int(n) => RespValue::Integer(*n),
+            El::Simple(t) => RespValue::SimpleString(t.clone().into()),
+            El::Error(t) => RespValue::Error(t.clone().into()),
+            El::NilBulk => RespValue::BulkString(None),
+            El::NilArray => RespValue::Array(None),
+            El::Array(v) => vcore::resp::frame(v),
+        }
+    }
+    pub fn to_zc(&self) -> RespValueZeroCopy {
+        // `Bytes` values are obtained through vcore (this crate does not depend on `bytes`)
+        fn bulk(a: &[u8]) -> RespValueZeroCopy {
+            match vcore::resp::frame_zc(&[a.to_vec()]) {
+                RespValueZeroCopy::Array(Some(mut v)) => v.pop().expect("one element"),
+                _ => unreachable!(),
+            }
+        }
+        match self {
+            El::Bulk(b) => bulk(b),
+            El::Int(n) => RespValueZeroCopy::Integer(*n),
+            El::Simple(t) => match bulk(t.as_bytes()) {
+                RespValueZeroCopy::BulkString(Some(b)) => RespValueZeroCopy::SimpleString(b),
+                _ => unreachable!(),
+            },
+            El::Error(t) => match bulk(t.as_bytes()) {
+                RespValueZeroCopy::BulkString(Some(b)) => RespValueZeroCopy::Error(b),
+                _ => unreachable!(),
+            },
+            El::NilBulk => RespValueZeroCopy::BulkString(None),
+            El::NilArray => RespValueZeroCopy::Array(None),
+            El::Array(v) => vcore::resp::frame_zc(v),
+        }
+    }
+}
+
+/// The elements of the frame: `argv` as bulk strings, with the listed positions replaced.
+pub fn elements(argv: &Argv, retype: &[(usize, El)]) -> Vec<El> {
+    let mut v: Vec<El> = argv.iter().map(|a| El::Bulk(a.clone())).collect();
+    for (pos, e) in retype {
+        if *pos < v.len() {
+            v[*pos] = e.clone();
+        }
+    }
+    v
+}
+
+pub fn frame_sim(els: &[El], top: Top) -> RespValue {
+    match top {
+        Top::Array => RespValue::Array(Some(els.iter().map(|e| e.to_sim()).collect())),
+        Top::NilArray => RespValue::Array(None),
+        Top::Bare => els.first().map(|e| e.to_sim()).unwrap_or(RespValue::BulkString(None)),
+    }
+}
+
+pub fn frame_zc(els: &[El], top: Top) -> RespValueZeroCopy {
+    match top {
+        Top::Array => RespValueZeroCopy::Array(Some(els.iter().map(|e| e.to_zc()).collect())),
+        Top::NilArray => RespValueZeroCopy::Array(None),
+        Top::Bare => els.first().map(|e| e.to_zc()).unwrap_or(RespValueZeroCopy::BulkString(None)),
+    }
+}
+
+pub fn show_frame(els: &[El], top: Top) -> String {
+    let body = els.iter().map(|e| e.show()).collect::<Vec<_>>().join(" ");
+    match top {
+        Top::Array => body,
+        Top::NilArray => "<frame *-1>".to_string(),
+        Top::Bare => format!("<frame is not an array> {}", els.first().map(|e| e.show()).unwrap_or_else(|| "<$-1>".into())),
+    }
+}
+
+/// the i64 an argument text denotes, if the helpers' `str::parse::<i64>` accepts it
+pub fn as_i64(a: &[u8]) -> Option<i64> {
+    std::str::from_utf8(a).ok().and_then(|s| s.parse::<i64>().ok())
+}
+
+/// integer element values at and around the limits of the target types (isize/i64/u64/u32/usize casts)
+const I64_POOL: &[i64] = &[
+    0,
+    1,
+    -1,
+    2,
+    5,
+    7,
+    100,
+    -100,
+    i64::MAX,
+    i64::MIN,
+    i64::MAX - 1,
+    i64::MIN + 1,
+    u32::MAX as i64,
+    u32::MAX as i64 + 1,
+    i32::MIN as i64,
+    1 << 53,
+];
+
+/// wire-representable text for a simple string / error element derived from an argument
+fn line_text(a: &[u8]) -> String {
+    match std::str::from_utf8(a) {
+        Ok(s) if !s.contains('\r') && !s.contains('\n') => s.to_string(),
+        _ => "OK".to_string(),
+    }
+}
+
+const N_KINDS: u8 = 7;
+
+/// the k-th non-bulk rendering of an argument (k in 0..N_KINDS)
+fn retyped(a: &[u8], k: u8, int_fallback: i64) -> El {
+    match k {
+        0 => El::Int(as_i64(a).unwrap_or(int_fallback)),
+        1 => El::Simple(line_text(a)),
+        2 => El::Error(line_text(a)),
+        3 => El::NilBulk,
+        4 => El::NilArray,
+        5 => El::Array(vec![a.to_vec()]),
+        _ => El::Array(vec![]),
+    }
+}
+
+/// every position >= 1 whose text denotes an i64 becomes an integer element
+/// (`LRANGE l :0 :-1`, `SET k v EX :100`): what a client that types its arguments sends
+pub fn all_numeric_as_int(argv: &Argv) -> Vec<(usize, El)> {
+    argv.iter().enumerate().skip(1).filter_map(|(i, a)| as_i64(a).map(|n| (i, El::Int(n)))).collect()
+}
+
+/// Exhaustive typed frames:
+///  * every prefix of the long canonical form of every spec (upper case), every single
+///    position (name included) x every non-bulk element kind, and all numeric texts as integers;
+///  * every option-order frame: each single numeric-text position as an integer element, and
+///    all of them at once;
+///  * every Int / UInt / NumKeys fixed position of every spec x the integer pool;
+///  * frames that are a nil array / not an array.
+pub fn typed_matrix() -> Vec<(Argv, Vec<(usize, El)>, Top)> {
+    let mut out = Vec::new();
+    for sp in SPECS {
+        let long = long_canonical(sp, 0);
+        for n in 1..=long.len() {
+            let base: Argv = long[..n].to_vec();
+            for pos in 0..n {
+                for k in 0..N_KINDS {
+                    out.push((base.clone(), vec![(pos, retyped(&base[pos], k, 1))], Top::Array));
+                }
+            }
+            let all = all_numeric_as_int(&base);
+            if all.len() > 1 {
+                out.push((base, all, Top::Array));
+            }
+        }
+        let mut full: Argv = sp.name.iter().map(|t| t.as_bytes().to_vec()).collect();
+        let name_len = full.len();
+        full.extend(sp.fixed.iter().map(|x| canonical(*x)));
+        full.extend(sp.rep.iter().map(|x| canonical(*x)));
+        for (i, x) in sp.fixed.iter().enumerate() {
+            if matches!(x, Int | UInt | NumKeys) {
+                for v in I64_POOL {
+                    out.push((full.clone(), vec![(name_len + i, El::Int(*v))], Top::Array));
+                }
+            }
+        }
+    }
+    for base in option_orders() {
+        let all = all_numeric_as_int(&base);
+        for one in &all {
+            out.push((base.clone(), vec![one.clone()], Top::Array));
+        }
+        if all.len() > 1 {
+            out.push((base, all, Top::Array));
+        }
+    }
+    for base in [vec![b"PING".to_vec()], vec![b"GET".to_vec(), b"k0".to_vec()], vec![b"5".to_vec()], vec![]] {
+        out.push((base.clone(), vec![], Top::NilArray));
+        out.push((base.clone(), vec![], Top::Bare));
+        if !base.is_empty() {
+            for k in 0..N_KINDS {
+                out.push((base.clone(), vec![(0, retyped(&base[0], k, 1))], Top::Bare));
+            }
+        }
+    }
+    out
+}
+
+/// Generated typed frame: a generated argv (same grammar, pools, perturbations as `frame`)
+/// plus an overlay of element types: with weight 2/5 every numeric text becomes an integer
+/// element, else 1..3 single positions (the name in ~6 % of the picks) are retyped (integer 50 %, nil bulk
+/// 15 %, simple string 10 %, nested array 10 %, error / nil array / empty array 5 % each);
+/// integer values are the text's own value, or pool / near-limit values; 3 % of the frames
+/// are a nil array or not an array.
+pub fn typed_frame() -> BoxedStrategy<(Argv, Vec<(usize, El)>, Top)> {
+    (
+        frame(None),
+        0u8..5,
+        proptest::collection::vec((any::<u16>(), 0u8..100, any::<u16>()), 1..4),
+        0u8..100,
+    )
+        .prop_map(|(argv, mode, picks, top_sel)| {
+            let mut retype: Vec<(usize, El)> = Vec::new();
+            if mode < 2 {
+                retype = all_numeric_as_int(&argv);
+            }
+            if (mode >= 2 || retype.is_empty()) && !argv.is_empty() {
+                let numeric: Vec<usize> = (1..argv.len()).filter(|i| as_i64(&argv[*i]).is_some()).collect();
+                for (psel, ksel, vsel) in &picks {
+                    // the command name is retyped in ~6 % of the picks (everything after it is
+                    // then moot); an integer element goes to a numeric text 3 times out of 4
+                    let pos = if argv.len() == 1 || psel & 15 == 0 {
+                        0
+                    } else if *ksel < 50 && !numeric.is_empty() && (vsel >> 2) & 3 != 0 {
+                        numeric[((*psel >> 4) as usize * numeric.len()) >> 12]
+                    } else {
+                        1 + ((((*psel >> 4) as usize) * (argv.len() - 1)) >> 12)
+                    };
+                    let a = &argv[pos];
+                    let e = match *ksel {
+                        0..=49 => {
+                            let pool = I64_POOL[(*vsel as usize * I64_POOL.len()) >> 16];
+                            match vsel & 3 {
+                                0 | 1 => El::Int(as_i64(a).unwrap_or(pool)),
+                                2 => El::Int(pool),
+                                _ => El::Int(as_i64(&near_limit(*vsel)).unwrap_or(pool)),
+                            }
+                        }
+                        50..=64 => El::NilBulk,
+                        65..=74 => El::Simple(line_text(a)),
+                        75..=84 => El::Array(vec![a.clone()]),
+                        85..=89 => El::Error(line_text(a)),
+                        90..=94 => El::NilArray,
+                        _ => El::Array(vec![]),
+                    };
+                    retype.retain(|(p, _)| *p != pos);
+                    retype.push((pos, e));
+                }
+                retype.sort_by_key(|(p, _)| *p);
+            }
+            let top = match top_sel {
+                0 => Top::NilArray,
+                1 | 2 => Top::Bare,
+                _ => Top::Array,
+            };
+            (argv, retype, top)
+        })
+        .boxed()
 }
